@@ -517,6 +517,47 @@ class BlsSuite(common.Suite):
              "qs": [["mod", i, 7] for i in (1, 2, 3, 4, 5, 7, 8, 9)] + [["mod", i, 8] for i in (1, 2, 3, 7, 8, 9)]},
         ]
 
+    def exhaustive(self, prop, part, parts):
+        """Small scope, complete: every operator tree with at most 3 operator nodes over a 4-element leaf alphabet, every
+        repetition count 0..5 and two huge ones, alignments {1,2,3,8}, queried for every divisor 1..12 (thorough tier)."""
+        leaves = [[0], [1], [8], [0, 3], [1, 2], [8, 16]]
+        ks = [0, 1, 2, 3, 5, 2**63, 2**63 + 1]
+        aligns = [1, 2, 3, 8]
+        trees: typing.List[typing.List[list]] = [[["leaf", l]] for l in leaves]
+        level = list(trees)
+        for _depth in range(2):
+            nxt: typing.List[typing.List[list]] = []
+            for t in level:
+                top = len(t) - 1
+                for a in aligns:
+                    nxt.append(t + [["pad", top, a]])
+                for k in ks:
+                    nxt.append(t + [["rep", top, k]])
+                    nxt.append(t + [["rrep", top, k]])
+                for l in leaves[:4]:
+                    nxt.append(t + [["leaf", l], ["cat", [top, len(t)]]])
+                    nxt.append(t + [["leaf", l], ["uni", [len(t), top]]])
+            trees += nxt
+            level = nxt
+        out = []
+        for idx, t in enumerate(trees):
+            if idx % parts != part:
+                continue
+            top = len(t) - 1
+            how = []
+            for n in t:
+                how.append({"leaf": "set", "pad": "pad", "rep": "rep", "rrep": "rrep", "cat": "op", "uni": "op"}[n[0]])
+            qs = [["min", top], ["max", top], ["fixed", top]]
+            memo: dict = {}
+            for d in range(1, 13):
+                if _cost(t, top, d, memo) <= MOD_BUDGET:
+                    qs.append(["mod", top, d])
+                    qs.append(["aligned", top, d])
+            if expand_cost(t, top, {}) <= EXPAND_BUDGET and o_den(t, top, 400, {}) is not None:
+                qs.append(["expand", top])
+            out.append({"nodes": t, "how": how, "qs": qs})
+        return out
+
     def run_impl(self, case):
         global pydsdl_mod
         pydsdl_mod = common.import_pydsdl()
